@@ -49,6 +49,10 @@ type xferScn struct {
 	// Deadlines[side]: Set*Deadline calls made on logical connections of that side just before the writers start,
 	// with a deadline that has expired already.  No-ops for the Mux: the transfer on every connection is unaffected
 	Deadlines [2][]dlop `json:"deadlines,omitempty"`
+	// Plain[side]: the Mux is created without WithBlockedRead (never blocked).  Unblocks[side]: that many extra
+	// Unblock() calls, the first just before the writers start, the others while they write.  No-ops for the Mux.
+	Plain    [2]bool `json:"plain,omitempty"`
+	Unblocks [2]int  `json:"unblocks,omitempty"`
 }
 
 type dlop struct {
@@ -183,7 +187,11 @@ func execXfer(s *xferScn, maxp int) *xferObs {
 	var muxes [2]multiplex.Mux
 	conns := [2]map[uint32]net.Conn{{}, {}}
 	for side := 0; side < 2; side++ {
-		muxes[side] = multiplex.Multiplex(recs[side], multiplex.WithReadQueueLength(s.QLen), multiplex.WithBlockedRead())
+		if s.Plain[side] && s.Blocked == "" {
+			muxes[side] = multiplex.Multiplex(recs[side], multiplex.WithReadQueueLength(s.QLen))
+		} else {
+			muxes[side] = multiplex.Multiplex(recs[side], multiplex.WithReadQueueLength(s.QLen), multiplex.WithBlockedRead())
+		}
 		for _, id := range append(append([]uint32{}, s.IDs...), s.Gone[side]...) {
 			cn, err := muxes[side].Open(multiplex.ConnID(id))
 			if err != nil {
@@ -207,8 +215,11 @@ func execXfer(s *xferScn, maxp int) *xferObs {
 		}
 	}
 	unblock := func() {
-		muxes[0].Unblock()
-		muxes[1].Unblock()
+		for side := 0; side < 2; side++ {
+			if !(s.Plain[side] && s.Blocked == "") {
+				muxes[side].Unblock()
+			}
+		}
 	}
 	writtenC := make(chan struct{})
 	var early atomic.Bool
@@ -386,6 +397,17 @@ func execXfer(s *xferScn, maxp int) *xferObs {
 			if err != nil {
 				fail("side %d id %d: Set*Deadline: %v", side, d.ID, err)
 			}
+		}
+	}
+	for side := 0; side < 2; side++ {
+		if s.Unblocks[side] > 0 {
+			muxes[side].Unblock()
+			go func(side int) {
+				for k := 1; k < s.Unblocks[side]; k++ {
+					time.Sleep(200 * time.Microsecond)
+					muxes[side].Unblock()
+				}
+			}(side)
 		}
 	}
 	close(startC)
